@@ -175,3 +175,6 @@ def gen_fasta():
 
 
 GENERATORS = {"FastaTables": gen_fasta}
+
+# properties whose checks need these generated files (a failure here only breaks those)
+SERVES = ['C18', 'C16']
